@@ -32,7 +32,7 @@ func (c03) Describe() engine.Info {
 	return engine.Info{
 		Rule: "scenario = 0..6 random history instructions, then one memory-accessing instruction (every such base opcode and every CB (HL) opcode, cycled by index) whose addressed locations (HL, BC, DE, nn, FF00+n, FF00+C, SP..) lie in writable plain memory, with per-cycle stamps written to those locations by the scheduler; an interrupt line may rise mid-instruction (masked). " +
 			"Oracle: a register mismatch at the end counts only if the real result is reproduced by the reference with the read moved to another cycle (then the read cycle is wrong); a write counts when the real location stops holding the stamp after a cycle other than the documented one. Signature = (opcode, memory window, history length class)." +
-			" Classes stamped-frame-boundary (the tested instruction straddles two passes of the frame loop) and stamped-after-halt (it is the first instruction after a HALT wake-up); writes are also taken from the bus tap (hook H4): every documented write performed, in its documented cycle. IF (FF0F) is among the stamped pointer targets of class stamped-io-pointer (five-bit stamps; its write cycle is judged on the bus tap only). Stores to FF46 through LDH (n),A and LD (C),A (the store that starts a DMA transfer) are among the stamped targets.",
+			" Classes stamped-frame-boundary (the tested instruction straddles two passes of the frame loop) and stamped-after-halt (it is the first instruction after a HALT wake-up); writes are also taken from the bus tap (hook H4): every documented write performed, in its documented cycle. IF (FF0F) is among the stamped pointer targets of class stamped-io-pointer (five-bit stamps; its write cycle is judged on the bus tap only). Stores to FF46 through LDH (n),A and LD (C),A (the store that starts a DMA transfer) are among the stamped targets. Class stamped-operand-coincidence: the immediate of LD (nn),SP / LD (nn),A / LD A,(nn) equals HL, BC, DE, SP or a neighbour of SP.",
 		Assumptions: []string{
 			"instruction-stream fetches (opcode, immediate operands) are outside the property and never stamped",
 			"wrong values or wrong addresses with correct timing are C01's business and are not reported here",
